@@ -304,7 +304,7 @@ Lemma life_frame_read : sat (frame life_view) conn_read.
 Proof. life_frame. Qed.
 Lemma life_frame_creds ru rp : sat (frame life_view) (do_set_remote_creds ru rp).
 Proof. life_frame. Qed.
-Lemma life_frame_renominate cfg l r v : sat (frame life_view) (do_renominate cfg l r v).
+Lemma life_frame_renominate cfg l r v : sat (frame life_view) (renominate_op cfg l r v).
 Proof. life_frame. Qed.
 
 (* AddLocal: only the local list may grow, and never while Failed *)
